@@ -604,6 +604,102 @@ def check_argument_views(tokens, res):
         res.fail(exc_key(e), exc_detail(e), {'what': 'argview', 'tokens': []})
 
 
+ALPHA_FC = ['a', ' ', '{a b}', '{{a}%c\nb}', '%c\n', '\\textbf{x}', '$x$', '~', '{}', 'b,']
+FILTER_OPTS = [{'skip_none': sn, 'skip_comments': sc, 'skip_whitespace_char_nodes': sw, 'pred': p}
+               for sn in (True, False) for sc in (False, True) for sw in (False, True)
+               for p in (None, 'chars', 'not-group')]
+
+
+def _chars_model(nodes):
+    """(text, ok): concatenation of character nodes at any group depth; comments and None
+    skipped; ok False when any other node kind occurs"""
+    out, ok = [], True
+    for n in nodes:
+        if n is None:
+            continue
+        k = kind(n)
+        if k == 'comment':
+            continue
+        if k == 'group':
+            t, o = _chars_model(list(n.nodelist))
+            out.append(t)
+            ok = ok and o
+        elif k == 'chars':
+            out.append(n.chars)
+        else:
+            ok = False
+            break
+    return ''.join(out), ok
+
+
+def check_filter_and_chars(tokens, none_at, res):
+    """LatexNodeList.filter(): the order-preserving sub-list of the nodes passing the flags and the
+    predicate; get_content_as_chars(): the characters of the list with comments, None entries and
+    group delimiters left out, an error for any other node"""
+    try:
+        s, nl = make_list(tokens, none_at)
+    except Exception:
+        return
+    case = {'what': 'filter', 'tokens': tokens, 'none_at': none_at}
+    res.case()
+    nodes = list(nl.nodelist)
+    want, ok = _chars_model(nodes)
+    try:
+        got = ('ok', nl.get_content_as_chars())
+    except Exception as e:
+        got = ('raised', exc_detail(e))
+    if ok and got != ('ok', want):
+        res.fail('c18:get_content_as_chars:differs', '%r: %r, expected %r' % (s, got, want), case)
+    elif not ok and got[0] == 'ok':
+        res.fail('c18:get_content_as_chars:accepts-non-character-node', '%r gives %r' % (s, got[1]),
+                 case)
+    res.label('content-as-chars:' + ('chars-only' if ok else 'other-node'))
+    preds = {None: None, 'chars': lambda n: kind(n) == 'chars',
+             'not-group': lambda n: n is None or kind(n) != 'group'}
+    for opt in FILTER_OPTS:
+        pf = preds[opt['pred']]
+        exp = []
+        for n in nodes:
+            if n is None:
+                if opt['skip_none']:
+                    continue
+                if opt['skip_comments'] or opt['skip_whitespace_char_nodes'] or \
+                        opt['pred'] == 'chars':
+                    exp = None      # a None entry reaches a type test: nothing is documented
+                    break
+                exp.append(n)
+                continue
+            if opt['skip_comments'] and kind(n) == 'comment':
+                continue
+            if opt['skip_whitespace_char_nodes'] and kind(n) == 'chars' and not n.chars.strip():
+                continue
+            if pf is not None and not pf(n):
+                continue
+            exp.append(n)
+        if exp is None:
+            continue
+        res.case()
+        try:
+            r = nl.filter(pf, skip_none=opt['skip_none'], skip_comments=opt['skip_comments'],
+                          skip_whitespace_char_nodes=opt['skip_whitespace_char_nodes'])
+            rn = list(r)
+        except Exception as e:
+            res.fail(exc_key(e), exc_detail(e) + ' filter(%r) on %r' % (opt, s), dict(case, opt=opt))
+            continue
+        if len(rn) != len(exp) or any(a is not b for a, b in zip(rn, exp)):
+            res.fail('c18:filter:wrong-nodes', '%r filter(%r): %r, expected %r'
+                     % (s, opt, [None if n is None else n.latex_verbatim() for n in rn],
+                        [None if n is None else n.latex_verbatim() for n in exp]), dict(case, opt=opt))
+            continue
+        real = [n for n in rn if n is not None]
+        if real and (r.pos != real[0].pos or r.pos_end != real[-1].pos_end):
+            res.fail('c18:filter:list-span', '%r filter(%r): list spans %r..%r, nodes %r..%r'
+                     % (s, opt, r.pos, r.pos_end, real[0].pos, real[-1].pos_end), dict(case, opt=opt))
+    if len(nodes) >= 2 and any(kind(n) in ('comment', 'group') for n in nodes if n is not None):
+        res.nontriv_distinct(len(FILTER_OPTS))
+        res.label('filter:non-trivial', case)
+
+
 def classify(tokens, what):
     """non-trivial rule"""
     seps = [t for t in tokens if t in (',', '=', ';', ':', '\\\\', '&')]
@@ -628,7 +724,8 @@ def plan(tier, seed):
             'required_classes': ['chars:non-trivial', 'node:non-trivial', 'kv:non-trivial',
                                  'keyval:repeated-key:first', 'keyval:repeated-key:concatenate',
                                  'with-none-entries', 'argview:unwrapped', 'argview:plain',
-                                 'argview:group-with-separators',
+                                 'argview:group-with-separators', 'filter:non-trivial',
+                                 'content-as-chars:chars-only', 'content-as-chars:other-node',
                                  'separator-inside-math-or-environment']}
 
 
@@ -665,6 +762,10 @@ def run_shard(shard, res):
     if what == 'argview':
         for toks in enum(ALPHA_ARG, L, k):
             check_argument_views(toks, res)
+        for toks in enum(ALPHA_FC, L, k):
+            check_filter_and_chars(toks, [], res)
+            if toks:
+                check_filter_and_chars(toks, [len(toks) // 2], res)
         res.exhaustive = True
         return
     alpha, opts = {'chars': (ALPHA, CHARS_OPTS), 'node': (ALPHA_NODE, NODE_OPTS),
@@ -710,6 +811,9 @@ def run_shard(shard, res):
 def check_case(case, res):
     if case['what'] == 'argview':
         check_argument_views(case['tokens'], res)
+        return
+    if case['what'] == 'filter':
+        check_filter_and_chars(case['tokens'], case.get('none_at') or [], res)
         return
     run_case(case, res)
 
